@@ -380,12 +380,12 @@ def abstract_item_registry():
     return reg
 
 
-def verify_arrays():
+def verify_arrays(which="wr", clauses=("match", "null", "trunc", "general")):
     import kio.serial.readers as R
     import kio.serial.writers as W
     reg = abstract_item_registry()
     results = []
-    for factory, kind in ((W.compact_array_writer, "carr"), (W.legacy_array_writer, "larr")):
+    for factory, kind in ((W.compact_array_writer, "carr"), (W.legacy_array_writer, "larr")) if "w" in which else ():
         closure = factory(_abs_item_writer)
         c = reg.lookup(closure)
         if c is None:
@@ -394,7 +394,7 @@ def verify_arrays():
             results.append(r)
             continue
         results += verify_writer(reg, closure, c, label=f"{factory.__name__}[item]")
-    for factory, kind in ((R.compact_array_reader, "carr"), (R.legacy_array_reader, "larr")):
+    for factory, kind in ((R.compact_array_reader, "carr"), (R.legacy_array_reader, "larr")) if "r" in which else ():
         closure = factory(_abs_item_reader)
         c = reg.lookup(closure)
         if c is None:
@@ -402,7 +402,7 @@ def verify_arrays():
             r.undecided.append((r.unit, "closure returned by the factory is not recognised (renamed?)"))
             results.append(r)
             continue
-        results += verify_reader(reg, closure, c, label=f"{factory.__name__}[item]")
+        results += verify_reader(reg, closure, c, label=f"{factory.__name__}[item]", clauses=clauses)
     return results
 
 
